@@ -77,7 +77,7 @@ ADDENDA = {
 }
 
 
-TYPED_NOTE = (" Typed flavours (harness/src/typed.rs): in every group of at least four shards of a cache-level engine each fourth shard runs the same "
+TYPED_NOTE = (" Typed flavours (harness/src/typed.rs): in every group of at least four shards of a cache-level engine each fourth shard (in a group of two or three: the last one) runs the same "
               "scenarios and oracles against a real CacheD<TKey, TVal> - boxed, heap-owning keys and values whose Hash / Eq / Clone / Drop "
               "implementations are seeded schedule points inside user code (bounded yields, spins up to 60 us, sleeps up to 250 us: in the middle "
               "of DashMap calls and between adjacent calls where the crate has no hook), which check their own consistency on every read and "
@@ -99,6 +99,11 @@ def with_flavours(shards):
     out = list(shards)
     for members in groups.values():
         g = len(members)
+        if g in (2, 3):
+            # a directed scenario with two or three shards: its last shard runs over the typed keys and values
+            argv, timeout = out[members[-1]]
+            out[members[-1]] = (["typed/" + argv[0]] + argv[1:], timeout)
+            continue
         if g < 4:
             continue
         for j, n in enumerate(members):
